@@ -27,7 +27,8 @@ def units(tier, seed):
     us = []
     for e in catalog.entries():
         us.append({"name": f"stepper/{e.name}", "kind": "stepper", "entry": e.name, "cost": 10})
-    us.append({"name": "exports", "kind": "exports", "cost": 30})
+    for i in range(6):
+        us.append({"name": f"exports/{i}", "kind": "exports", "part": i, "parts": 6, "cost": 30})
     us.append({"name": "guards", "kind": "guards", "cost": 5})
     us.append({"name": "options", "kind": "options", "cost": 5})
     return us
@@ -133,7 +134,9 @@ def unit_exports(u, rec):
     if missing:
         rec.notes.append(f"exported classes not in the catalogue (covered with default arguments only): {missing}")
     N = 8
-    for name, cls in sorted(classes.items()):
+    for ci, (name, cls) in enumerate(sorted(classes.items())):
+        if ci % u["parts"] != u["part"]:
+            continue
         built = 0
         for D in (1, 2, 3):
             try:
@@ -148,7 +151,7 @@ def unit_exports(u, rec):
             check_stepper_shapes(rec, st, st.num_channels, D, N, f"export/{name}")
         rec.check(built >= 1, f"C20/exports/{name}/never_constructible", "class cannot be constructed in any dimension", name=name)
     # Poisson: the spatial shape must match (any channel count is allowed)
-    for D in (1, 2, 3):
+    for D in ((1, 2, 3) if u["part"] == 0 else ()):
         for order in (2, 4):
             ps = ex.poisson.Poisson(D, 2.5, N, order=order)
             for C in (1, 2, 3):
